@@ -224,7 +224,7 @@ Fixpoint digests (version : N) (es : list entry) : res (list bytes) :=
 Inductive vmode :=
 | VEmbedded            (* values live in the tx log, vLogID must be 0 *)
 | VSingle              (* one value log (MaxIOConcurrency = 1): vLogID must be 1 *)
-| VMulti.              (* several value logs: s.vLogs[vLogID-1], a map lookup *)
+| VMulti.              (* several value logs: s.vLogs[vLogID-1], a map lookup (checked since c6a3ff8) *)
 
 (* decodeOffset: vLogID = byte(off >> 56); offset = off &^ (0xff << 55), i.e. bits 55..62 cleared
    and the sign bit kept *)
@@ -236,7 +236,8 @@ Definition off_negative (off : N) : bool := 2 ^ 63 <=? off mod 2 ^ 64.
 Definition read_at (log : bytes) (off n : N) : res bytes :=
   if off + n <=? len log then Ok (take n (drop off log)) else Err EEOF.
 
-(* fetchVLog; in the multi-vlog branch a missing map entry is a nil dereference *)
+(* fetchVLog; in the multi-vlog branch a missing map entry is reported as corrupted data (before
+   commit c6a3ff8 it was dereferenced) *)
 Definition fetch_vlog (mode : vmode) (txlog : bytes) (vlogs : list bytes) (id : N) : res bytes :=
   match mode with
   | VEmbedded => if 0 <? id then Err EUnexpected else Ok txlog
@@ -245,7 +246,7 @@ Definition fetch_vlog (mode : vmode) (txlog : bytes) (vlogs : list bytes) (id : 
                else Err EUnexpected
   | VMulti => match nth_error vlogs (N.to_nat ((id + 255) mod 256)) with
               | Some v => Ok v
-              | None => Panic
+              | None => Err ECorruptedData
               end
   end.
 
@@ -265,34 +266,38 @@ Definition read_value_at (chk : bool) (mode : vmode) (txlog : bytes) (vlogs : li
   then Err ECorruptedData else Ok b.
 
 (* ImmuStore.ReadValue(entry) for a read-only entry that is not expired: an entry whose vLen is 0
-   is answered with the empty value before anything is checked *)
-Definition read_value (mode : vmode) (txlog : bytes) (vlogs : list bytes)
+   is answered with the empty value before anything is checked; a vLen above MaxValueLen is
+   rejected before the buffer is allocated (since commit 85f50b0) *)
+Definition read_value (maxValueLen : N) (mode : vmode) (txlog : bytes) (vlogs : list bytes)
            (vlen off : N) (hval : bytes) : res bytes :=
-  if vlen =? 0 then Ok [] else read_value_at true mode txlog vlogs vlen off hval.
+  if vlen =? 0 then Ok [] else
+  if maxValueLen <? vlen then Err ECorruptedData else
+  read_value_at true mode txlog vlogs vlen off hval.
 
-(* make([]byte, entry.vLen) in ReadValue / valueRef.Resolve / ExportTx happens before any check and
-   is not related to MaxValueLen: bytes allocated for one value read *)
-Definition read_value_alloc (vlen : N) : N := vlen.
+(* bytes allocated by ReadValue for the value buffer: make([]byte, entry.vLen) after the two tests *)
+Definition read_value_alloc (maxValueLen vlen : N) : N :=
+  if vlen =? 0 then 0 else if maxValueLen <? vlen then 0 else vlen.
 
 (* ---- the value loop of ExportTx (after readTx succeeded): a value whose read ends in io.EOF is
    taken for "truncated by retention" and its digest is exported instead; either all values are
    exported or none. Result: the truncated flag and, per entry, the value or the digest ---- *)
-Fixpoint export_values (chk : bool) (mode : vmode) (txlog : bytes) (vlogs : list bytes)
+Fixpoint export_values (chk : bool) (maxValueLen : N) (mode : vmode) (txlog : bytes) (vlogs : list bytes)
          (es : list entry) (i : N) (trunc : bool) : res (bool * list bytes) :=
   match es with
   | [] => Ok (trunc, [])
   | e :: r =>
+      if maxValueLen <? e_vlen e then Err ECorruptedData else      (* since commit 85f50b0 *)
       match read_value_at chk mode txlog vlogs (e_vlen e) (e_voff e) (e_hval e) with
       | Panic => Panic
       | Err c =>
           if c =? EEOF then
             if negb trunc && (0 <? i) then Err ECorruptedData else
-            do (t, l) <- export_values chk mode txlog vlogs r (i + 1) true;
+            do (t, l) <- export_values chk maxValueLen mode txlog vlogs r (i + 1) true;
             Ok (t, e_hval e :: l)
           else Err c
       | Ok v =>
           if trunc then Err ECorruptedData else
-          do (t, l) <- export_values chk mode txlog vlogs r (i + 1) trunc;
+          do (t, l) <- export_values chk maxValueLen mode txlog vlogs r (i + 1) trunc;
           Ok (t, v :: l)
       end
   end.
